@@ -593,4 +593,22 @@ Section Column.
     - intros b' I. apply SK. right. exact I.
     - rewrite !col_resp_step, EO, EN, EF, (SK b (or_introl eq_refl)), EC. reflexivity.
   Qed.
+
+  (* ---------------------------------------------------------------- finishing in the response phase *)
+  (* completeSuccess (the test that lets ProcessResponses finish without a
+     justification phase) reads the eviction flags and the rows of the dealers
+     that are NOT evicted, nothing else: the cells a node holds for a dealer it
+     evicted - cells it never announces (my_responses) - have no influence. *)
+  Definition live_view (s : st q) : list (Z * (bool * list (Z * Z))) :=
+    map (fun e => (fst e, (d_ev (snd e), if d_ev (snd e) then [] else d_row (snd e)))) (s_d s).
+
+  Theorem complete_success_live_view (s1 s2 : st q) :
+    live_view s1 = live_view s2 -> complete_success q s1 = complete_success q s2.
+  Proof.
+    unfold live_view, complete_success. generalize (s_d s1) (s_d s2). clear s1 s2.
+    induction l as [|e1 l1 IH]; intros [|e2 l2] V; try discriminate; [reflexivity|].
+    cbn [map] in V. inversion V as [[K E R V']]. cbn [forallb]. rewrite (IH _ V'). f_equal.
+    destruct (d_ev (snd e1)), (d_ev (snd e2)); try discriminate; [reflexivity|].
+    cbn [orb]. rewrite R. reflexivity.
+  Qed.
 End Column.
